@@ -202,4 +202,84 @@ theorem linear_path_vertices (fuel : Nat) (mode : GameMode) (points : List (Path
     exact (segBody_mem fuel mode points _ st1 n hl hst1 _ h2).2 (by omega)
 
 end Generic
+/-! ## 2. the natural cumulative lengths of a finite path are `Sorted` -/
+
+section FloatSec
+open Rosu.C16 Rosu.FErr
+open Float.Model Float.Model.UnpackedFloat
+
+/-- **`natural_lengths_sorted_float`**: for a path with finite `f32` coordinates the natural cumulative lengths
+`0.0 :: cumLens 0.0 path` (what `calculate_length` returns without a requested length, surplus `0.0`) are `Sorted` in the
+sense of Props/C19IeeeSearch.lean (IEEE `<=` between any two positions `i ≤ j`, hence NaN-free), start with `0.0`, are all
+`≥ 0`, and there are as many as path points. -/
+theorem natural_lengths_sorted_float (path : List (Pos Float32)) (hfin : ∀ p ∈ path, FinitePos p) :
+    Sorted (natLens (0 : Float) path) ∧ (natLens (0 : Float) path)[0]? = some (0 : Float) ∧
+    (∀ v ∈ natLens (0 : Float) path, Scalar.le (0 : Float) v = true) ∧
+    (path ≠ [] → (natLens (0 : Float) path).length = path.length) := by
+  have hg := natLens_good_float 0 path zero_le_zero_float hfin
+  refine ⟨sorted_of_adjacent _ ?_ ?_, rfl, hg.2, natLens_length 0 path⟩
+  · intro i x hx; exact hg.not_nan x (List.mem_of_getElem? hx)
+  · exact (mono_get _).mp hg.1
+
+/-! ## 3. `position_at` on the curve of all-linear control points -/
+
+section New
+variable [Trig Float32]
+
+/-- the curve `Curve::new` builds without a requested length from all-linear control points: its path consists of
+control-point positions, is non-empty, and its lengths are the natural ones seeded with `0.0`. -/
+theorem linear_curve_shape (fuel : Nat) (mode : GameMode) (pts : List (PathControlPoint Float32))
+    (b b' : CurveBuffers Float32 Float) (c : Curve Float32 Float)
+    (hl : AllLinear pts) (hne : pts ≠ [])
+    (h : Curve.new fuel mode pts none b = .ok (c, b')) :
+    (∀ v ∈ c.path, ∃ cp ∈ pts, cp.pos = v) ∧ c.path ≠ [] ∧ c.lengths = natLens (0 : Float) c.path := by
+  obtain ⟨b1, opt, hp, hlen⟩ := C16.new_is_calculateLength fuel mode pts none b b' c h
+  obtain ⟨hmem, hnon, rfl⟩ := linear_path_vertices fuel mode pts b b1 opt hl hp
+  simp only [calculateLength, Outcome.pure_eq_ok, Except.ok.injEq, Prod.mk.injEq] at hlen
+  obtain ⟨h1, h2⟩ := hlen
+  rw [← h1, ← h2]
+  exact ⟨hmem, hnon hne, rfl⟩
+
+/-- **`linear_curve_position_err_float32_partial`** (partial only in the hypothesis `hbf`: the last — total — natural length
+is finite, i.e. the `f64` running sum did not overflow; see `linear_curve_position_err_float32_statement`). Control points
+all linear, finite and bounded by `2¹⁹`; the curve `Curve::new` computes without a requested length; any progress that is a
+number: `position_at(progress)` returns a position within `1/4` px, per coordinate, of a point `p0 + w (p1 − p0)`,
+`w ∈ [0, 1]`, of a segment between two CONSECUTIVE path vertices `p0`, `p1` (or `p1 = p0`), both of which are control-point
+positions. -/
+theorem linear_curve_position_err_float32_partial (fuel : Nat) (mode : GameMode) (pts : List (PathControlPoint Float32))
+    (b b' : CurveBuffers Float32 Float) (c : Curve Float32 Float) (q : Float)
+    (hl : AllLinear pts) (hne : pts ≠ [])
+    (hbd : ∀ cp ∈ pts, Bounded19 cp.pos) (hfp : ∀ cp ∈ pts, FinitePos cp.pos)
+    (h : Curve.new fuel mode pts none b = .ok (c, b'))
+    (hbf : ∀ x, c.lengths.getLast? = some x → FX.Finite64 x)
+    (hq : Scalar.isNaN q = false) :
+    ∃ (p : Pos Float32) (k : Nat) (p0 p1 : Pos Float32) (w : ℚ),
+      positionAt c.path c.lengths q = .ok p ∧
+      c.path[k]? = some p0 ∧ (c.path[k + 1]? = some p1 ∨ p1 = p0) ∧
+      (∃ cp ∈ pts, cp.pos = p0) ∧ (∃ cp ∈ pts, cp.pos = p1) ∧ 0 ≤ w ∧ w ≤ 1 ∧
+      |toRat32 p.x - (toRat32 p0.x + w * (toRat32 p1.x - toRat32 p0.x))| < 1 / 4 ∧
+      |toRat32 p.y - (toRat32 p0.y + w * (toRat32 p1.y - toRat32 p0.y))| < 1 / 4 := by
+  obtain ⟨hmem, hnon, hlens⟩ := linear_curve_shape fuel mode pts b b' c hl hne h
+  have hbd' : ∀ p ∈ c.path, Bounded19 p := by
+    intro p hp; obtain ⟨cp, hcp, rfl⟩ := hmem p hp; exact hbd cp hcp
+  have hfp' : ∀ p ∈ c.path, FinitePos p := by
+    intro p hp; obtain ⟨cp, hcp, rfl⟩ := hmem p hp; exact hfp cp hcp
+  obtain ⟨hs, h0, _, hlen⟩ := natural_lengths_sorted_float c.path hfp'
+  rw [← hlens] at hs h0 hlen
+  cases hb : c.lengths.getLast? with
+  | none =>
+    rw [List.getLast?_eq_none_iff] at hb
+    rw [hb] at h0; cases h0
+  | some bl =>
+    obtain ⟨_, _, p, k, p0, p1, w, hpos, hk0, hk1, hw0, hw1, hx, hy⟩ :=
+      positionAt_progress_err_float32_nofin c.path c.lengths q 0 bl hq (hlen hnon).symm hs hbd' hfp' h0 hb
+        zero_le_zero_float zero_le_zero_float (hbf bl hb)
+    refine ⟨p, k, p0, p1, w, hpos, hk0, hk1, hmem p0 (List.mem_of_getElem? hk0), ?_, hw0, hw1, hx, hy⟩
+    rcases hk1 with hk1 | hk1
+    · exact hmem p1 (List.mem_of_getElem? hk1)
+    · rw [hk1]; exact hmem p0 (List.mem_of_getElem? hk0)
+
+end New
+end FloatSec
+
 end Rosu.C19
